@@ -135,7 +135,9 @@ package xtype
 //@   requires@C13 j != nil && j.Code != nil && source != nil && source.PointerInner != nil
 //@   ensures result != nil && result.Code != nil && result.ParentPointer == j
 //@ func Type.TypeAsJen
-//@   props C01
+//@   props C01 C14
+//@   pure
+//@   ensures result == ite(t.Named, toCode(t.NamedType), toCode(t.T))
 //@   ensures result != nil
 //@ func Type.AsPointer
 //@   props C03 C13
@@ -178,7 +180,7 @@ package xtype
 //@   props C01 C18
 //@   ensures result != nil
 //@   loop 1 invariant len(fields) == i && i >= 0 && i <= t.NumFields()
-//@   at@C01 call append#1 assert Mentions(arg1, toCode(t.Field(i).Type()))
+//@   at@C01,C18 call append#1 assert Mentions(arg1, toCode(t.Field(i).Type()))
 //@   at@C01 call append#1 assert t.Tag(i) != "" ==> Mentions(arg1, jen.Id("`" + t.Tag(i) + "`"))
 //@   at@C01 call append#1 assert !t.Field(i).Embedded() ==> Mentions(arg1, jen.Id(t.Field(i).Name()))
 //@   at@C01 call jen.Struct#1 assert len(arg0) == t.NumFields()
@@ -250,3 +252,10 @@ package xtype
 //@   props C13
 //@   assigns nothing
 //@   ensures result != nil && isFresh(result)
+
+// C01/C10: zero values of composite types are spelled with the full rendering of the type (type arguments included)
+//@ func ZeroValue
+//@   props C01 C10
+//@   ensures dynIs[*types.Named](t) && dynIs[*types.Struct](unboxed[*types.Named](t).Underlying()) ==> result == jen.Parens(toCode(t).Block())
+//@   ensures dynIs[*types.Struct](t) || dynIs[*types.Array](t) ==> result == toCode(t).Block()
+//@   ensures dynIs[*types.Interface](t) || dynIs[*types.Signature](t) || dynIs[*types.Pointer](t) || dynIs[*types.Map](t) || dynIs[*types.Slice](t) || dynIs[*types.Chan](t) ==> result == jen.Nil()
